@@ -238,8 +238,10 @@ def _inverse(ck, rule, prog, f, temps, p):
         if pf.end != "return" or pf.ret is None or not isinstance(pf.ret, ast.Tuple) or len(pf.ret.elts) != 4:
             continue
         sgn, nw, nf, cx = pf.ret.elts
-        isq = any(g[1] for g in pf.guards[:1])
-        kind = "q" if isq else "fxp"
+        kind = _path_kind(prog, p, pf, None)
+        if kind is None:
+            ck.unsure(rule, p, "each returning path of the parser reads the groups of one pattern", pf.ret_stmt, "pattern behind %s not identified" % src(nw)[:60])
+            continue
 
         def grp(e):
             """group number an expression reads: int(mo.group(k)) / mo.group(k)[1:] ..."""
@@ -283,11 +285,61 @@ def _inverse(ck, rule, prog, f, temps, p):
     for pf in pfs:
         if pf.end != "raise":
             continue
-        matched = [t for t, pol in _pl(pf.guards) if pol and any(isinstance(x, ast.Call) and isinstance(x.func, ast.Attribute) and x.func.attr in ("match", "fullmatch") for x in ast.walk(t))]
+        matched = [t for t, pol in _pl(pf.guards) if _match_truth(t, pol) is True]
         if matched:
             ck.bad(rule, p, "a format string accepted by a reader pattern is not rejected by a later check", "raises although %s matched" % src(matched[0])[:60], pf.ret_stmt or p.node,
                    "dtype strings the writer produces (e.g. fxp-s8/12, n_frac > n_word) can no longer be fed back")
             break
+
+
+def _is_match_call(x):
+    return isinstance(x, ast.Call) and isinstance(x.func, ast.Attribute) and x.func.attr in ("match", "fullmatch")
+
+
+def _match_truth(t, pol):
+    """True: the literal says a pattern matched; False: that it did not; None: not about a match object"""
+    if _is_match_call(t):
+        return pol
+    if isinstance(t, ast.Compare) and len(t.ops) == 1 and _is_match_call(t.left) and isinstance(t.comparators[0], ast.Constant) and t.comparators[0].value is None:
+        if isinstance(t.ops[0], (ast.Is, ast.Eq)):
+            return not pol
+        if isinstance(t.ops[0], (ast.IsNot, ast.NotEq)):
+            return pol
+    return None
+
+
+def _path_kind(prog, p, pf, pats):
+    """'q' / 'fxp': the pattern whose groups the returned tuple of this path reads (the match object is substituted into the returned expressions)"""
+    kinds = set()
+    for e in pf.ret.elts:
+        for n in ast.walk(e):
+            if isinstance(n, ast.Call) and isinstance(n.func, ast.Attribute) and n.func.attr == "group":
+                for m in ast.walk(n.func.value):
+                    if _is_match_call(m):
+                        base = m.func.value
+                        lit = None
+                        if isinstance(base, ast.Call) and dotted(base.func) == "re.compile" and base.args:
+                            lit = const_str(base.args[0])
+                        elif isinstance(base, ast.Call):
+                            q = prog.resolve_call(p, base)
+                            if q in prog.funcs:
+                                for c2 in ast.walk(prog.funcs[q].node):
+                                    if isinstance(c2, ast.Call) and dotted(c2.func) == "re.compile" and c2.args and const_str(c2.args[0]) is not None:
+                                        lit = const_str(c2.args[0])
+                        if lit is not None:
+                            kinds.add("fxp" if "fxp" in lit else "q")
+    if len(kinds) == 1:
+        return kinds.pop()
+    if not kinds:
+        # the groups are read through a name the path engine could not see through: fall back to which pattern is known to have matched
+        for g in pf.guards:
+            tr = _match_truth(g[0], g[1])
+            if tr is True:
+                for m in ast.walk(g[0]):
+                    if _is_match_call(m):
+                        txt = src(m)
+                        return "fxp" if "fxp" in txt.lower() else "q"
+    return None
 
 
 def _reader_q_signed(prog, p):
@@ -317,7 +369,7 @@ def entry_points(ck, rule):
         for pf in fpaths(prog, f):
             if pf.end == "raise":
                 continue
-            pcs = [ce for ce in pf.calls if prog.resolve_call(ce.ctx or f, ce.raw) == p.qualname]
+            pcs = [ce for ce in pf.calls if prog.resolve_call(ce.ctx or f, ce.raw) in (p.qualname, A.fmt_parser_entry(prog).qualname)]
             if not pcs:
                 continue
             hit = True
@@ -350,6 +402,18 @@ def entry_points(ck, rule):
                                    "the copied state overwrites the complex flag parsed from dtype")
                 else:
                     ck.bad(rule, f, "%s applies the parsed complex flag to the value type" % f.name, "complex flag set but vdtype not set to complex", f.node, "the '-complex' suffix would be dropped")
+            if cg and cg[-1][1] and vst:
+                # nothing later on the path overrides the complex value type: a restoring set_val(..., vdtype=<earlier value>) would
+                order = pf.order
+                vi = [i for i, (k_, o) in enumerate(order) if k_ == "store" and o is vst[-1]][0]
+                for i, (k_, o) in enumerate(order):
+                    if i > vi and k_ == "call" and isinstance(o.raw.func, ast.Attribute) and o.raw.func.attr == "set_val":
+                        kv = kw(o.call, "vdtype", 2)
+                        if kv is not None and not (isinstance(kv, ast.Constant) and kv.value is None) and dotted(kv) != "complex":     # the substituted keyword: `self.vdtype` here denotes the value at entry, not the one just stored
+                            ck.bad(rule, f, "the value type parsed from a '-complex' dtype string survives the re-store of the value", "set_val(..., vdtype=%s) after vdtype = complex" % src(kv)[:40], o.stmt,
+                                   "the earlier value type overwrites the complex flag: the refreshed dtype string loses its '-complex' suffix")
+            if cg and cg[-1][1]:
+                pass
             elif cg and not cg[-1][1]:
                 if vst:
                     ck.bad(rule, f, "the value type becomes complex only for a complex dtype string", "vdtype = complex although the parsed flag is false", vst[-1].stmt)
@@ -408,6 +472,16 @@ def notation_parameter(ck, rule):
     ck.check(cfg >= 1, rule, upd, "without an argument the configured default notation is used", "selector does not test config.dtype_notation on the default path", upd.node)
 
 
+def _case_closed(c):
+    """the literal a group is compared with accepts both cases: `g in 'sqSQ'` (closed under case swapping) or a literal without cased characters"""
+    lit = const_str(c.comparators[0])
+    if lit is None:
+        return False
+    if isinstance(c.ops[0], (ast.In, ast.NotIn)):
+        return all(ch.swapcase() in lit for ch in lit)
+    return lit.swapcase() == lit
+
+
 def case_insensitive_groups(ck, rule):
     """C12.R1b: parsing is case-insensitive in every field: either the input is case-folded before matching, or every comparison of a captured group with a
     literal is made on the lower-cased group."""
@@ -428,7 +502,7 @@ def case_insensitive_groups(ck, rule):
                     l = c.left
                     involves_group = any(isinstance(x, ast.Call) and isinstance(x.func, ast.Attribute) and x.func.attr == "group" for x in ast.walk(l))
                     lowered = any(isinstance(x, ast.Call) and isinstance(x.func, ast.Attribute) and x.func.attr in ("lower", "casefold") for x in ast.walk(l))
-                    if involves_group and not lowered:
+                    if involves_group and not lowered and not _case_closed(c):
                         ck.bad(rule, p, "every captured field is compared case-insensitively", "%s" % src(c)[:70], g[3],
                                "an upper-case spelling of that field (e.g. '-COMPLEX') is matched by the pattern but then not recognised")
         for st in pf.stores:
@@ -437,7 +511,7 @@ def case_insensitive_groups(ck, rule):
                     l = c.left
                     involves_group = any(isinstance(x, ast.Call) and isinstance(x.func, ast.Attribute) and x.func.attr == "group" for x in ast.walk(l))
                     lowered = any(isinstance(x, ast.Call) and isinstance(x.func, ast.Attribute) and x.func.attr in ("lower", "casefold") for x in ast.walk(l))
-                    if involves_group and not lowered:
+                    if involves_group and not lowered and not _case_closed(c):
                         ck.bad(rule, p, "every captured field is compared case-insensitively", "%s" % src(c)[:70], st.stmt,
                                "an upper-case spelling of that field is matched by the pattern but then not recognised")
 
